@@ -152,6 +152,8 @@ class _Qap(_Backend):
 
         def watched_split():
             self._split["buffered_eq_records"] = w.unflushed("pysnark_eqs")
+            self._split["buffered_wire_records"] = w.unflushed("pysnark_wires")
+            self._split["buffered_io_records"] = w.unflushed("pysnark_values")
             self._split["disk_eq_lines"] = len(w.read_lines("pysnark_eqs"))
             return real_split()
         qs.qapsplit = watched_split
@@ -187,6 +189,9 @@ class _Qap(_Backend):
         d["F.split_was_run"] = "disk_eq_lines" in self._split
         if "disk_eq_lines" in self._split:
             d["F.equations_flushed_before_split"] = self._split["buffered_eq_records"] == 0
+            # the proving tools read the wire and I/O files from disk as well
+            d["F.wires_flushed_before_split"] = self._split.get("buffered_wire_records", 0) == 0
+            d["F.io_values_flushed_before_split"] = self._split.get("buffered_io_records", 0) == 0
         # per-function files contain every traced equation of their context
         ctx_of = {t[2]: t[1] for t in fns}
         expected = {}
